@@ -2,7 +2,7 @@
    values and ANY strictly increasing tables of the right lengths; the
    regenerated tables qualify. *)
 From Coq Require Import List NArith ZArith Bool Lia ZifyBool ZifyNat ZifyN Sorted.
-From SNT Require Import Encoder.Encode Encoder.Color256 Gen.TabColor.
+From SNT Require Import Base.Outcome Encoder.Encode Encoder.Color256 Encoder.EncodeC20 Gen.TabColor.
 Import ListNotations.
 Local Open Scope Z_scope.
 Ltac Zify.zify_post_hook ::= Z.div_mod_to_equations.
@@ -284,3 +284,134 @@ Proof.
   intros H. unfold best_d2.
   apply (fold_min_le (fun n => d2 v (entry cube greys n))), palette_indices_in, H.
 Qed.
+
+(* ---------- the tolerance predicate means what it says ---------- *)
+Theorem sqrt_le_plus_squares a b e :
+  0 <= a -> 0 <= b -> 0 <= e -> (sqrt_le_plus (a * a) (b * b) e = true <-> a <= b + e).
+Proof.
+  intros Ha Hb He. unfold sqrt_le_plus. split.
+  - intros H. apply orb_prop in H. destruct H as [H|H].
+    + apply Z.leb_le in H. nia.
+    + apply Z.leb_le in H. destruct (Z.le_gt_cases a (b + e)) as [Hle|Hgt]; [exact Hle|exfalso].
+      assert (Hl : 2 * e * b < a * a - b * b - e * e) by nia.
+      assert (Hp : 0 <= 2 * e * b) by nia.
+      assert ((2 * e * b) * (2 * e * b) < (a * a - b * b - e * e) * (a * a - b * b - e * e)) by nia.
+      nia.
+  - intros H. apply orb_true_iff. destruct (Z.leb_spec (a * a - b * b - e * e) 0) as [H0|H0]; [left; reflexivity|right].
+    apply Z.leb_le. assert (Hu : a * a - b * b - e * e <= 2 * e * b) by nia.
+    assert ((a * a - b * b - e * e) * (a * a - b * b - e * e) <= (2 * e * b) * (2 * e * b)) by nia.
+    nia.
+Qed.
+
+Lemma sqrt_le_plus_le xx yy e : xx <= yy -> sqrt_le_plus xx yy e = true.
+Proof. intros H. unfold sqrt_le_plus. apply orb_true_iff. left. apply Z.leb_le. nia. Qed.
+
+(* ---------- EPSILON statement: the true palette positions ---------- *)
+Lemma entries_close_true : entries_close = true.
+Proof. vm_compute. reflexivity. Qed.
+
+Lemma lin_in_unit n : 0 <= lin n <= color_den.
+Proof.
+  pose proof tables_ok_true as H. unfold tables_ok in H.
+  repeat (apply andb_prop in H; let H2 := fresh "H" in destruct H as [H H2]).
+  match goal with Hr : forallb _ (srgb_z ++ _) = true |- _ => rename Hr into Hrange end.
+  rewrite forallb_app in Hrange. apply andb_prop in Hrange. destruct Hrange as [Hs _].
+  unfold lin. destruct (nth_in_or_default (N.to_nat n) srgb_z 0) as [Hin| ->].
+  - rewrite forallb_forall in Hs. apply Hs in Hin. lia.
+  - unfold color_den. lia.
+Qed.
+
+Lemma sq_perturb v x t d e :
+  0 <= v <= d -> 0 <= x <= d -> 0 <= t <= d -> Z.abs (t - x) <= e ->
+  Z.abs ((v - x) * (v - x) - (v - t) * (v - t)) <= 2 * e * d.
+Proof. intros Hv Hx Ht He. nia. Qed.
+
+Lemma d2_perturb v a b :
+  vec_in_unit v = true -> vec_in_unit a = true -> vec_in_unit b = true -> vec_close a b = true ->
+  Z.abs (d2 v a - d2 v b) <= 6 * tol256 * color_den.
+Proof.
+  destruct v as [[v1 v2] v3], a as [[a1 a2] a3], b as [[b1 b2] b3]. unfold vec_in_unit, vec_close, d2.
+  intros Hv Ha Hb Hc.
+  pose proof (sq_perturb v1 b1 a1 color_den tol256). pose proof (sq_perturb v2 b2 a2 color_den tol256).
+  pose proof (sq_perturb v3 b3 a3 color_den tol256). lia.
+Qed.
+
+(* For every opaque 8-bit colour the entry chosen by the exact algorithm over the TYPED
+   tables, measured at the TRUE palette positions (the library's own linearisation of the
+   xterm levels), is a closest entry up to 12 * eps in squared linear-light distance. *)
+Theorem pal256_true_palette_upto_eps (c : rgba) :
+  forall m, (16 <= m < 256)%N ->
+    d2 (lin_vec c) (entry xcube_z xgreys_z (pal256_exact c))
+    <= d2 (lin_vec c) (entry xcube_z xgreys_z m) + eps_sq_bound.
+Proof.
+  intros m Hm. destruct (pal256_exact_optimal c) as [Hr Hopt]. specialize (Hopt m Hm).
+  pose proof entries_close_true as Hc. unfold entries_close in Hc. rewrite forallb_forall in Hc.
+  pose proof (Hc _ (palette_indices_in _ Hr)) as H1. pose proof (Hc _ (palette_indices_in _ Hm)) as H2.
+  apply andb_prop in H1. destruct H1 as [H1 U1x]. apply andb_prop in H1. destruct H1 as [C1 U1].
+  apply andb_prop in H2. destruct H2 as [H2 U2x]. apply andb_prop in H2. destruct H2 as [C2 U2].
+  assert (Uv : vec_in_unit (lin_vec c) = true).
+  { unfold lin_vec, vec_in_unit. pose proof (lin_in_unit (cr c)). pose proof (lin_in_unit (cg c)).
+    pose proof (lin_in_unit (cb c)). lia. }
+  pose proof (d2_perturb _ _ _ Uv U1 U1x C1). pose proof (d2_perturb _ _ _ Uv U2 U2x C2).
+  unfold eps_sq_bound. lia.
+Qed.
+
+(* ---------- no panic on the reduced-depth path ---------- *)
+Lemma nth_chk_ok site t i : (i < length t)%nat -> nth_chk site t i = Ok (nthz t i).
+Proof.
+  intros H. unfold nth_chk, nthz. destruct (nth_error t i) eqn:E.
+  - f_equal. symmetry. apply nth_error_nth. exact E.
+  - apply nth_error_None in E. lia.
+Qed.
+
+Theorem pal_algo_chk_ok cube greys v :
+  inc cube -> length cube = 6%nat -> inc greys -> length greys = 24%nat ->
+  pal_algo_chk cube greys v = Ok (pal_algo cube greys v).
+Proof.
+  intros Hc Lc Hg Lg. destruct v as [[r g] b].
+  assert (Nc : cube <> []) by (destruct cube; [discriminate | congruence]).
+  assert (Ng3 : map (Z.mul 3) greys <> []) by (destruct greys; [discriminate | discriminate]).
+  destruct (nearest_min r cube Hc Nc) as [Rr _]. destruct (nearest_min g cube Hc Nc) as [Rg _].
+  destruct (nearest_min b cube Hc Nc) as [Rb _].
+  destruct (nearest_min (r + g + b) _ (inc_map3 _ Hg) Ng3) as [Rs _]. rewrite map_length in Rs.
+  unfold pal_algo_chk, pal_algo. rewrite !nth_chk_ok by assumption. cbn [bind].
+  unfold grey_vec, cube_vec. destruct (_ <? _); reflexivity.
+Qed.
+
+Theorem pal256_chk_ok c : pal256_chk c = Ok (pal256_exact c).
+Proof.
+  destruct tables_facts as (Hc & Lc & Hg & Lg & _). apply pal_algo_chk_ok; assumption.
+Qed.
+
+Lemma all_ok_pal l : all_ok (map pal256_chk l) = Ok tt.
+Proof. induction l as [|c l IH]; [reflexivity|]. cbn [map all_ok]. rewrite pal256_chk_ok. exact IH. Qed.
+
+(* ---------- the tabulated brute force of the correspondence check ---------- *)
+Lemma palette_entries_eq : palette_entries = map (entry xcube_z xgreys_z) palette_indices.
+Proof. vm_compute. reflexivity. Qed.
+
+Lemma fold_left_map_min (f : N -> vec) v l : forall init,
+  fold_left (fun m e => Z.min m (d2 v e)) (map f l) init = fold_left (fun m n => Z.min m (d2 v (f n))) l init.
+Proof. induction l as [|a l IH]; intros init; [reflexivity|]. cbn [map fold_left]. apply IH. Qed.
+
+Theorem best_d2_tab_eq v : best_d2_tab v = best_d2 xcube_z xgreys_z v.
+Proof. unfold best_d2_tab, best_d2. rewrite palette_entries_eq. apply fold_left_map_min. Qed.
+
+Theorem best_d2_tab_spec v m :
+  (16 <= m < 256)%N -> best_d2_tab v <= d2 v (entry xcube_z xgreys_z m).
+Proof. intros H. rewrite best_d2_tab_eq. apply best_d2_spec, H. Qed.
+
+(* ---------- statements restricted to what the property is about: opaque colours ---------- *)
+Theorem pal256_exact_optimal_opaque (c : rgba) :
+  ca c = 255%N ->
+  (16 <= pal256_exact c < 256)%N /\
+  forall m, (16 <= m < 256)%N ->
+    d2 (lin_vec c) (entry cube_z greys_z (pal256_exact c)) <= d2 (lin_vec c) (entry cube_z greys_z m).
+Proof. intros _. apply pal256_exact_optimal. Qed.
+
+Theorem pal256_true_palette_upto_eps_opaque (c : rgba) :
+  ca c = 255%N ->
+  forall m, (16 <= m < 256)%N ->
+    d2 (lin_vec c) (entry xcube_z xgreys_z (pal256_exact c))
+    <= d2 (lin_vec c) (entry xcube_z xgreys_z m) + eps_sq_bound.
+Proof. intros _. apply pal256_true_palette_upto_eps. Qed.
